@@ -398,6 +398,25 @@ func main() {
 			continue
 		}
 		stats["values"]++
+		// now and then an encoding FAILS in between (a record holding a union with no member set, after other fields were
+		// already written): whatever the failed call left behind must not reach the encodings that follow
+		if stats["values"]%25 == 1 {
+			if nt, ok := registry["Nest"]; ok {
+				bad := reflect.New(nt)
+				if lt, ok := registry["Leaf"]; ok {
+					if f := bad.Elem().FieldByName("Arr"); f.IsValid() && f.Kind() == reflect.Slice && f.Type().Elem() == lt {
+						f.Set(reflect.MakeSlice(f.Type(), 2, 2)) // fields before `u` carry content
+					}
+				}
+				for _, fl := range flavours() {
+					_, err := encode(fl, marshalerOf(bad))
+					stats["failing_encodings"]++
+					if err == nil {
+						violation("C11/union/encode-valid=false-error=false/Nest.u/members=", "a record holding a union without any member was encoded", nil)
+					}
+				}
+			}
+		}
 		feat := hc.FeatureKey(row.Av)
 		ptr := reflect.New(typ)
 		b.Build(ptr.Elem(), row.Av)
